@@ -10,7 +10,10 @@ import (
 	"path/filepath"
 	"strconv"
 	"strings"
+	"sync"
 	"time"
+
+	"github.com/creachadair/mds/shell"
 
 	"verif/harness/fw"
 )
@@ -171,4 +174,70 @@ func (r *shellRig) compare(c *fw.Ctx, tails []string, want [][]string, counter s
 			}
 		}
 	}
+}
+
+// shellFirstUse: the very first use of the shell package in this process comes
+// from several goroutines at once (they are released together from a barrier):
+// whatever the package sets up lazily on first use must be ready for each of
+// them. Each goroutine scans its own input with its own Scanner and with the
+// pooled Split, and quotes and re-splits a list; results are compared with
+// expected values that do not need the package (fixed inputs).
+var shellFirstUseDone bool
+
+func shellFirstUse() string {
+	if shellFirstUseDone {
+		return ""
+	}
+	shellFirstUseDone = true
+	const G = 16
+	type job struct {
+		in   string
+		want []string
+	}
+	jobs := make([]job, G)
+	for g := range jobs {
+		jobs[g] = job{
+			in:   fmt.Sprintf("\"a b\" 'c d' e\\ f \"g\\\"h\" i%d \\\\ 'x'\"y\"z", g),
+			want: []string{"a b", "c d", "e f", "g\"h", fmt.Sprintf("i%d", g), "\\", "xyz"},
+		}
+	}
+	var ready, start sync.WaitGroup
+	ready.Add(G)
+	start.Add(1)
+	errs := make([]string, G)
+	var done sync.WaitGroup
+	for g := 0; g < G; g++ {
+		done.Add(1)
+		go func(g int) {
+			defer done.Done()
+			j := jobs[g]
+			ready.Done()
+			start.Wait()
+			sc := shell.NewScanner(strings.NewReader(j.in))
+			var got []string
+			for sc.Next() {
+				got = append(got, sc.Text())
+			}
+			if !equalStrings(got, j.want) || !sc.Complete() {
+				errs[g] = fmt.Sprintf("goroutine %d, first use of the package in this process: Scanner yields %q (complete=%v), want %q", g, got, sc.Complete(), j.want)
+				return
+			}
+			if fs, ok := shell.Split(j.in); !ok || !equalStrings(fs, j.want) {
+				errs[g] = fmt.Sprintf("goroutine %d, first use of the package in this process: Split = %q (complete=%v), want %q", g, fs, ok, j.want)
+				return
+			}
+			if fs, ok := shell.Split(shell.Join(j.want)); !ok || !equalStrings(fs, j.want) {
+				errs[g] = fmt.Sprintf("goroutine %d, first use of the package in this process: Split(Join(%q)) = %q (complete=%v)", g, j.want, fs, ok)
+			}
+		}(g)
+	}
+	ready.Wait()
+	start.Done()
+	done.Wait()
+	for _, e := range errs {
+		if e != "" {
+			return e
+		}
+	}
+	return ""
 }
